@@ -51,6 +51,7 @@ type c03Case struct {
 	localRcpt   bool   // receipt of a local destination chain, verified by that chain's master rule
 	timeout     int64  // timeout value of the request the receipt belongs to (local receipts)
 	stBefore    int    // status of the transaction before the block (local receipts)
+	decider     string // the local chain whose master rule decides this IBTP ("" for inter-hub and direct cases)
 }
 
 func c03Property(t *rapid.T) {
@@ -73,6 +74,14 @@ func c03Property(t *rapid.T) {
 
 	drawProof := func(ruleKind string) (proof []byte, hash []byte, valid bool, class string) {
 		k := rapid.SampledFrom([]string{"valid", "valid", "nil", "empty", "hash-mismatch", "rule-false", "rule-trap", "huge"}).Draw(t, "proofClass")
+		if ruleKind == "none" {
+			// the chain has no master rule at the moment (an update is being voted on): nothing verifies
+			proof = []byte("1-valid-proof")
+			if k == "rule-false" {
+				proof = []byte("0-rejected")
+			}
+			return proof, sim.ProofHash(proof), false, k + "(no-rule)"
+		}
 		switch k {
 		case "valid":
 			proof = []byte("1-valid-proof")
@@ -185,6 +194,7 @@ func c03Property(t *rapid.T) {
 			ib := &pb.IBTP{From: c.from, To: c.to, Index: idx, Proof: hash, Type: typ}
 			c.tx = w.IBTP(key(dst), ib, proof)
 			c.receiptIdx, c.localRcpt = idx, true
+			c.decider = dst
 			c.timeout = localT[fmt.Sprintf("%s#%d", pk, idx)]
 			c.expectValid = valid
 			c.desc = fmt.Sprintf("local receipt %s for %s->%s idx=%d rule(%s)=%s proof=%s", typ, c.from, c.to, idx, dst, rule, class)
@@ -200,6 +210,7 @@ func c03Property(t *rapid.T) {
 			pd, _ := (&pb.Payload{Hash: content[:]}).Marshal()
 			ib := &pb.IBTP{From: c.from, To: c.to, Index: idx, TimeoutHeight: 0, Proof: hash, Type: pb.IBTP_INTERCHAIN, Payload: pd}
 			c.tx = w.IBTP(key(rsrc), ib, proof)
+			c.decider = rsrc
 			c.expectValid = valid
 			c.mustAccept = valid && usable[rsrc]
 			c.toRemote = true
@@ -283,6 +294,7 @@ func c03Property(t *rapid.T) {
 			localT[fmt.Sprintf("%s#%d", c.pairKey, idx)] = c.timeout
 			ib := &pb.IBTP{From: c.from, To: c.to, Index: idx, TimeoutHeight: c.timeout, Proof: hash, Type: pb.IBTP_INTERCHAIN}
 			c.tx = w.IBTP(key(src), ib, proof)
+			c.decider = src
 			c.expectValid = valid
 			c.mustAccept = valid && src != "chainL" && usable[src] && usable[dst]
 			c.desc = fmt.Sprintf("IBTP request %s->%s idx=%d rule=%s proof=%s", c.from, c.to, idx, rule, class)
@@ -394,6 +406,39 @@ func c03Property(t *rapid.T) {
 		if rapid.IntRange(0, 3).Draw(t, "ruleEpisode") == 0 {
 			ruleEpisode()
 		}
+		// pipelined episode: the block in front of the generated one ends with a master-rule update of one chain (from
+		// that transaction on the chain has no master rule until the proposal is decided), and both blocks are handed
+		// to the executor at once, as an orderer that is ahead of the executor does. The IBTPs of that chain in the
+		// second block have to be judged by the state the first block leaves.
+		var pre *blockSpec
+		var preTx pb.Transaction
+		var pipeChain, pipeCand, pipeSaved string
+		if rapid.IntRange(0, 3).Draw(t, "pipelined") == 0 {
+			pipeChain = rapid.SampledFrom([]string{"chainW", "chainU", "chainH"}).Draw(t, "pipeChain")
+			candAddr := happyAddr
+			pipeCand = "happy"
+			if ruleOf[pipeChain] == "happy" {
+				pipeCand, candAddr = "wat", tpl.Data["rule"]
+			}
+			k := key(pipeChain)
+			// the candidate has to be in the chain's rule list (a refusal of a second registration is harmless)
+			w.Block(w.BVM(k, constant.RuleManagerContractAddr, "RegisterRule", pb.String(pipeChain), pb.String(candAddr), pb.String("http://rule")))
+			if chainStatus(pipeChain) == "available" && ruleOf[pipeChain] != "none" {
+				pre = &blockSpec{}
+				nf := rapid.IntRange(10, 160).Draw(t, "pipeFillers")
+				for i := 0; i < nf; i++ {
+					ftx := w.Transfer(sim.Outsiders[i%2], sim.KeyFor("sink"), "1")
+					pre.txs = append(pre.txs, &txSpec{tx: ftx, desc: "filler transfer"})
+				}
+				preTx = w.BVM(k, constant.RuleManagerContractAddr, "UpdateMasterRule", pb.String(pipeChain), pb.String(candAddr), pb.String("r"))
+				pre.txs = append(pre.txs, &txSpec{tx: preTx, desc: "UpdateMasterRule " + pipeChain + " -> " + pipeCand})
+				w.TS += 10
+				pre.ts = w.TS
+				pipeSaved = ruleOf[pipeChain]
+				ruleOf[pipeChain] = "none"
+				usable[pipeChain] = false
+			}
+		}
 		// blocks of up to 14 transactions: proofs are verified in (up to five) position groups, so the IBTPs have to
 		// appear at every position of blocks of every size, not only in the first five
 		n := rapid.IntRange(1, 14).Draw(t, "ntx")
@@ -419,6 +464,9 @@ func c03Property(t *rapid.T) {
 		}
 		w.TS += 10
 		b.ts = w.TS
+		if pre != nil {
+			j.add(pre)
+		}
 		j.add(b)
 		sim.Journal(j)
 		before := sim.DumpState(w.N.StateDB)
@@ -438,7 +486,25 @@ func c03Property(t *rapid.T) {
 			}
 		}
 		h := w.N.Height()
-		if _, err := w.N.ExecBlock(b.event(h + 1)); err != nil {
+		skipChain := ""
+		if pre != nil {
+			if err := w.N.ExecBlocksPipelined(pre.event(h+1), b.event(h+2)); err != nil {
+				f.fail("pipelined blocks %d and %d not executed: %v", h+1, h+2, err)
+			}
+			h++
+			pr, err := w.N.Ledger.GetReceipt(preTx.GetHash())
+			if err != nil {
+				f.fail("the master-rule update of block %d has no receipt: %v", h, err)
+			}
+			ops = append(ops, fmt.Sprintf("  block %d (%d transactions, handed over together with block %d): UpdateMasterRule %s -> %s ok=%v ret=%.80q", h, len(pre.txs), h+1, pipeChain, pipeCand, pr.IsSuccess(), pr.Ret))
+			if pr.IsSuccess() {
+				classesSeen["pipelined-rule-change"] = true
+			} else {
+				// the update was refused: what decides the chain's IBTPs in the second block was not what the cases assumed
+				skipChain = pipeChain
+				ruleOf[pipeChain] = pipeSaved
+			}
+		} else if _, err := w.N.ExecBlock(b.event(h + 1)); err != nil {
 			f.fail("block %d not executed: %v", h+1, err)
 		}
 		rs := checkExecuted(w.N, h, b, f)
@@ -460,6 +526,21 @@ func c03Property(t *rapid.T) {
 			if c.direct && strings.Contains(c.desc, "Invoke") {
 				// the broker contract's own bookkeeping may change; the interchain contract's must not (checked below)
 				allInvalid = false
+			}
+			if skipChain != "" && (c.decider == skipChain || strings.Contains(c.from, ":"+skipChain+":") || strings.Contains(c.to, ":"+skipChain+":")) {
+				// bookkeeping only
+				allInvalid = false
+				if rs[i].IsSuccess() && c.localRcpt {
+					localDone[c.pairKey] = c.receiptIdx
+				} else if rs[i].IsSuccess() && c.receiptIdx != 0 {
+					remoteDone[c.pairKey] = c.receiptIdx
+				} else if rs[i].IsSuccess() && !c.direct {
+					nextIdx[c.pairKey]++
+					if c.toRemote {
+						remoteReq[c.pairKey] = nextIdx[c.pairKey]
+					}
+				}
+				continue
 			}
 			if c.direct || !c.expectValid {
 				if !c.direct {
@@ -520,6 +601,29 @@ func c03Property(t *rapid.T) {
 			if c.direct && rs[i].IsSuccess() && !strings.Contains(c.desc, "Invoke") {
 				f.fail("%s succeeded for an external account", c.desc)
 			}
+		}
+		if pre != nil {
+			allInvalid = false // the dump taken before covers two blocks
+			// the proposal is decided, a chain left frozen is activated again
+			if skipChain == "" {
+				pr, _ := w.N.Ledger.GetReceipt(preTx.GetHash())
+				approve := rapid.Bool().Draw(t, "pipeApprove")
+				w.VoteThrough(sim.ProposalID(pr), approve, 3)
+				if approve {
+					ruleOf[pipeChain] = pipeCand
+				} else {
+					ruleOf[pipeChain] = pipeSaved
+				}
+				if chainStatus(pipeChain) == "frozen" {
+					ar := w.Block(w.BVM(key(pipeChain), constant.AppchainMgrContractAddr, "ActivateAppchain", pb.String(pipeChain), pb.String("r")))[0]
+					if ar.IsSuccess() {
+						w.VoteThrough(sim.ProposalID(ar), true, 3)
+					}
+				}
+				ruleEpisodes++
+				ops = append(ops, fmt.Sprintf("  pipelined rule update on %s: approved=%v -> master rule %s, chain %s", pipeChain, approve, ruleOf[pipeChain], chainStatus(pipeChain)))
+			}
+			usable[pipeChain] = chainStatus(pipeChain) == "available"
 		}
 		if allInvalid {
 			for _, k := range sim.DiffDumps(before, after) {
